@@ -19,7 +19,8 @@ package network
 //@   requires wfBC(c) && !held(c.lock) && block != nil && block.Header != nil
 //@   ensures wfBC(c)
 //@   ensures old(len(c.cache)) < 10240 ==> exists(j, 0, len(c.cache), c.cache[j].Height == block.Height() && has(c.cache[j].Blocks, block.Hash()))
-//@   ensures old(len(c.cache)) < 10240 ==> forall(i, 0, old(len(c.cache)), exists(j, 0, len(c.cache), c.cache[j].Height == old(c.cache[i].Height)))
+//@   ensures old(len(c.cache)) < 10240 ==> forall(i, 0, old(len(c.cache)), c.cache[i] == old(c.cache[i]) || (i + 1 < len(c.cache) && c.cache[i+1] == old(c.cache[i])))
+//@   ensures old(len(c.cache)) < 10240 ==> forall(i, 0, old(len(c.cache)), old(c.cache[i]).Height == old(c.cache[i].Height))
 //@   ensures len(c.cache) <= old(len(c.cache)) + 1
 //@   invariant @loop 0: 0 <= i && i <= len(c.cache) && forall(k, 0, i, c.cache[k].Height < height)
 //@   nopanic
